@@ -3,7 +3,7 @@
 sequences on the real framework and reports canonical observations.
 
 stdin:  {"cases": [ {"tree": T, "ops": [op, ...]}, ... ]}
-  T  = {"a": alias, "x": instantiable?, "h": [[hid, [[src, tag, contextual, form], ...]], ...], "s": [T, ...]}
+  T  = {"id": class id, "base": id of the generated class it derives from | None, "a": alias, "x": instantiable?, "h": [[hid, [[src, tag, contextual, form], ...]], ...], "s": [T, ...]}
        decorators are listed in APPLICATION order (innermost first); form = "source" | "instance"
   op = ["inst", path, alias] | ["destroy", path, name] | ["send", path, dst, tag] | ["set", path, v]
        | ["save"] | ["load"] | ["restart"]   (path = list of names from the root, names/aliases/tags are strings)
@@ -42,29 +42,49 @@ class Run:
         handler.__name__ = "h%03d" % hid
         return handler
 
-    def build(self, t):
+    def build(self, tree):
+        """one class per node; a node may name another node as its base class (the class objects
+        are created in dependency order, then linked with add() following the tree)"""
         run = self
-        attrs = {}
-        for hid, decos in t["h"]:
-            f = self.mk_handler(hid)
-            for src, tag, ctx, form in decos:
-                if form == "instance":
-                    d = instance(src) if tag == "default" else instance(src, tag=tag)
-                elif tag == "default" and not ctx:
-                    d = source(src)
-                else:
-                    d = source(src, tag, contextual=bool(ctx))
-                f = d(f)
-            attrs["h%03d" % hid] = f
-        def configure(self, options):
-            run.registry.append(self)
-        attrs["configure"] = configure
-        self.nclass += 1
-        cls = type("C%d_%s" % (self.nclass, t["a"]), (ContextualLayer if t["x"] else Layer,), attrs)
-        cls = alias(t["a"])(cls)
-        for sub in t["s"]:
-            cls.add(self.build(sub))
-        return cls
+        nodes = {}
+        def collect(t):
+            nodes[t["id"]] = t
+            for sub in t["s"]:
+                collect(sub)
+        collect(tree)
+        built = {}
+        def mk(nid):
+            if nid in built:
+                return built[nid]
+            t = nodes[nid]
+            base = mk(t["base"]) if t.get("base") is not None else (ContextualLayer if t["x"] else Layer)
+            attrs = {}
+            for hid, decos in t["h"]:
+                f = self.mk_handler(hid)
+                for src, tag, ctx, form in decos:
+                    if form == "instance":
+                        d = instance(src) if tag == "default" else instance(src, tag=tag)
+                    elif tag == "default" and not ctx:
+                        d = source(src)
+                    else:
+                        d = source(src, tag, contextual=bool(ctx))
+                    f = d(f)
+                attrs["h%03d" % hid] = f      # no decorator at all: a plain method (may hide a base handler)
+            def configure(self, options):
+                run.registry.append(self)
+            attrs["configure"] = configure
+            attrs["LAYERS"] = {}               # own sub-layer dictionary (not the base class's)
+            self.nclass += 1
+            cls = type("C%d_%s" % (self.nclass, t["a"]), (base,), attrs)
+            built[nid] = alias(t["a"])(cls)
+            return built[nid]
+        for nid in nodes:
+            mk(nid)
+        def link(t):
+            for sub in t["s"]:
+                built[t["id"]].add(link(sub))
+            return built[t["id"]]
+        return link(tree)
 
 
 def resolve(root, path):
